@@ -165,13 +165,14 @@ def keyword_set(schema: dict) -> tuple:
     return tuple(sorted(ks))
 
 
-def check_versions(tp, data, label, type_repr, source, shape, deser_only, st):
+def check_versions(tp, data, label, type_repr, source, shape, deser_only, st, extra_kw=None):
+    extra_kw = extra_kw or {}
     sides = [("deser", deserialization_schema, "deserialization"), ("ser", serialization_schema, "serialization")]
     if deser_only:
         sides = sides[:1]
     for side, fn, defkey in sides:
         try:
-            ref_schema = json.loads(json.dumps(fn(tp)))
+            ref_schema = json.loads(json.dumps(fn(tp, **extra_kw)))
             ref_validator = Draft202012Validator(ref_schema)
             ref_verdicts = [ref_validator.is_valid(d) for d in data]
         except Exception as e:
@@ -181,7 +182,7 @@ def check_versions(tp, data, label, type_repr, source, shape, deser_only, st):
         for vname, version in VERSIONS.items():
             base = {"label": label, "type": type_repr, "options": [side, vname], "source": source}
             try:
-                conv = json.loads(json.dumps(fn(tp, version=version)))
+                conv = json.loads(json.dumps(fn(tp, version=version, **extra_kw)))
                 defs = {}
                 if vname in ("oas3.0", "oas3.1"):
                     defs = json.loads(json.dumps(definitions_schema(**{defkey: [tp]}, version=version)))
@@ -352,6 +353,15 @@ def run_worlds(st):
         for name, tp, data in targets:
             check_versions(tp, data, "world:" + name, name, WORLD_SRC, "world:" + name, False, st)
             check_both_sides(tp, "world:" + name, name, WORLD_SRC, "world:" + name, st)
+        # keywords given through the schema= parameter of the call sit at the root like any other: converted too
+        from apischema import schema as _schema
+
+        for name, tp, data, sch in (
+            ("float@schema=exc", float, [-1, 0, 0.5, 5, 10, 11, "a"], _schema(exc_min=0, exc_max=10, examples=[1.5])),
+            ("RecNode@schema=max_props", m.RecNode, [{}, {"value": 1}, {"value": 1, "children": []}, {"children": [{"value": 2, "children": []}]}], _schema(max_props=1)),
+            ("Exc2@schema=min", m.Exc2, [0, 4.5, 5, 7.5, 10, 20], _schema(min=6, description="d")),
+        ):
+            check_versions(tp, data, "world:" + name, name, WORLD_SRC, "world:" + name, False, st, extra_kw={"schema": sch})
         # the conversion to a version is itself a serialization: global serialization settings must not leak into it
         from apischema import PassThroughOptions, settings
 
